@@ -14,14 +14,23 @@ def unit_cases(rng, k0, n):
         casing = rng.choice([None] + C.CASINGS)
         ra = "#[display(rename_all = \"%s\")] " % casing if casing else ""
         exp = C.rename(F.unraw(name), casing) if casing else F.unraw(name)
-        if rng.random() < 0.5:
+        shape = rng.random()
+        if shape < 0.4:
             c.decl = "#[derive(derive_more::Display)] %spub struct %s;" % (ra, name)
             c.value = name
+        elif shape < 0.65:
+            # several #[display(...)] attributes on one item: rename_all next to bound(...) in either order, and next to
+            # attributes of other derives
+            bound = "#[display(bound(T: ::core::fmt::Display))] "
+            other = rng.choice(["", "#[allow(dead_code)] ", "#[doc = \"x\"] "])
+            attrs = [ra, bound] if rng.random() < 0.5 else [bound, ra]
+            c.decl = "#[derive(derive_more::Display)] %s%s%spub enum En<T> { %s, Other(T) }" % (attrs[0], other, attrs[1], name)
+            c.value = "En::<i32>::" + name
         else:
             c.decl = "#[derive(derive_more::Display)] %spub enum En { %s, Other(i32) }" % (ra, name)
             c.value = "En::" + name
         c.obs = [("unit-name", "format!(\"{}\", __v)", "String::from(%s)" % F.rust_lit(exp))]
-        c.meta = {"name": name, "rename_all": casing}
+        c.meta = {"name": name, "rename_all": casing, "decl": c.decl}
         cases.append(c)
     return cases
 
